@@ -16,7 +16,7 @@ type MapCodec struct {
 func (m *MapCodec) Read(r *ReadBuf, p unsafe.Pointer) error {
 	// p is a pointer to a map pointer
 	if *(*unsafe.Pointer)(p) == nil {
-		*(*unsafe.Pointer)(p) = m.New(r)
+		*(*unsafe.Pointer)(p) = unsafe.Pointer(reflect.MakeMap(m.rtype).Pointer())
 	}
 	mp := *(*unsafe.Pointer)(p)
 
@@ -95,8 +95,10 @@ func (m *MapCodec) Skip(r *ReadBuf) error {
 	return nil
 }
 
+// New allocates a map variable (somewhere to keep the map pointer), as every
+// other codec's New allocates a variable of its type. Read creates the map.
 func (m *MapCodec) New(r *ReadBuf) unsafe.Pointer {
-	return unsafe.Pointer(reflect.MakeMap(m.rtype).Pointer())
+	return r.Alloc(pointerType)
 }
 
 func (m *MapCodec) Omit(p unsafe.Pointer) bool {
